@@ -11,7 +11,7 @@ PARTIAL = ('real kernel: variance/covariance = LPU double sums, symmetry, cov(y,
 ASSUMPTIONS = ['rounding of the float sums (math.fsum modelled exactly, other additions bit-exact in correspondence)']
 TRUSTED = ['Coq Reals library']
 
-def correspondence(rng, tier):
+def _base_correspondence(rng, tier):
     n = 240 if tier == 'quick' else 4000
     return kernel.run_kernel_corr(rng, n, 'cov', 'C04')
 
@@ -124,3 +124,14 @@ def replay(payload):
         print('replayed on the implementation:', 'STILL FAILS %r' % (p,) if p else 'passes now')
         return 1 if p else 0
     return 0
+
+def correspondence(rng, tier):
+    r = _base_correspondence(rng, tier)
+    # extra_corr: complex_corr_programs: complex-kernel programs with UncertainComplex.set_correlation (4-element r, ensemble and infinite-dof branches), conjugate after cached v/r, variance/r reads, model CKernel.v
+    f = __import__('cgen').run_ckernel_corr(rng, 'dof', 'C04c', tier=tier)
+    r['mismatches'] += f.get('mismatches', [])
+    r['programs'] += f.get('programs', 0); r['steps'] += f.get('steps', 0)
+    r['distinct'] = r.get('distinct', 0) + f.get('distinct', 0)
+    r.setdefault('distribution', {})['complex_corr_programs'] = f.get('programs', 0)
+    r['rule'] = r.get('rule', '') + '; plus complex_corr_programs: complex-kernel programs with UncertainComplex.set_correlation (4-element r, ensemble and infinite-dof branches), conjugate after cached v/r, variance/r reads, model CKernel.v'
+    return r
